@@ -14,7 +14,7 @@ J CaseSpec::json() const {
   for (auto& p : programs) ps.push_back(p.str());
   j.arr("programs", ps).arr("ext", ext).arr("poolTasks", poolTasks).kv("main", mainProg).kv("resizer", resizerProg);
   j.kv("cts", ctsKind).kv("ctsSteal", ctsSteal).kv("gates", gates).kv("gateRelease", gateRelease);
-  j.kv("perturb", perturb).kv("futexDelay", futexDelay).kv("futexSpur", futexSpur).kv("acct", checkAccounting).kv("finalResize", finalResize);
+  j.kv("perturb", perturb).kv("futexDelay", futexDelay).kv("futexSpur", futexSpur).kv("acct", checkAccounting).kv("finalResize", finalResize).kv("joinPoolTasks", joinPoolTasks).kv("hintRace", hintRace);
   return j;
 }
 
@@ -152,6 +152,7 @@ CaseObs runCase(const CaseSpec& s) {
     vrt::progress();
   }
   setHooks(s.perturb);
+  if (s.hintRace) vrt::hookProb(V::kPoolFindBeforeHintClear, 0.85);
   if (s.futexDelay > 0) vrt::futexPreWaitDelay(s.futexDelay, 200);
   if (s.futexSpur > 0) vrt::futexSpurious(s.futexSpur);
 
@@ -197,6 +198,11 @@ CaseObs runCase(const CaseSpec& s) {
   if (s.mainProg >= 0) runProgram(s.mainProg);
   for (auto& t : threads) {
     t.join();
+    vrt::progress();
+  }
+  if (s.joinPoolTasks && !cts) {
+    // a pool task that waits on placed (steal-ring) work must not overlap ~ThreadPool (see report: shutdown hang)
+    while (g.programsDone.load(std::memory_order_relaxed) < static_cast<long>(s.poolTasks.size())) usleep(50);
     vrt::progress();
   }
   if (cts) {
